@@ -43,16 +43,17 @@ PROPS['C12'] = dict(
     assumptions=['list-set view: facts instantiated by the engine at append/empty/shuffle/iteration, each justified by a LISTSET lemma',
                  'Python int is unbounded; list displays do not alias; the loop variable of `for x in lists: shuffle(x)` aliases the element (modelled)'])
 IOP = 'instance_options_parser:Instance_options_parser.'
+def GEN_INIT(mp): return ('generator:Generator.__init__', {'argv_fixed': {'matchingproblem': mp}, 'force_inline': (IOP + 'parse',), 'declared_args': {'skew': {'dest': 'skew', 'type': 'float'}}})
 PROPS['C15'] = dict(
     title='Generator accepts every documented argument set and cleanly rejects invalid ones',
-    functions=[(IOP + 'parse', {'argv_fixed': {'matchingproblem': mp}}) for mp in ('ha', 'sm', 'hr', 'spa')],
+    functions=[(IOP + 'parse', {'argv_fixed': {'matchingproblem': mp}}) for mp in ('ha', 'sm', 'hr', 'spa')] + [GEN_INIT(mp) for mp in ('ha', 'sm', 'hr', 'spa')],
     lemmas=[],
     level_text='full-domain symbolic execution of Instance_options_parser.parse (helpers inlined, table loops unrolled exactly) per problem type, every other argument absent-or-any-value: returns normally iff Legal(args), otherwise SystemExit(2); every comparison with None is a safety obligation; complete for all integers / reals, no bound',
     harness=True, bound='legal base vectors with n <= 6 and all single-fault perturbations; quick 3 bases per type, thorough 40',
     trusted=['T9 argparse: parse_args yields typed values or the declared defaults (None / False) or exits with code 2; parser.error raises SystemExit(2); get_default returns the declared default',
              'float arguments treated as reals'],
     assumptions=['Legal(type, args) is transcribed from the README "require the following arguments" lists and the bound list in the property statement',
-                 'Generator.__init__ ordering (parse before any output) and generate_instances are checked by C08 contracts and by the bounded runs (nothing written on rejection)'])
+                 'Generator.__init__ is verified per problem type with the option parser inlined: parse runs before anything else, and every precondition of generate_instances (hence of every generator function below it) is a call-site obligation discharged from the checks the parser performed - "accepted and produces the instances without error" is composed by execution, for a positive skew when one is given (the skew is not in the bound list of the statement); nothing written on rejection: bounded runs'])
 OPP = 'options_parser:Options_parser.'
 PROPS['C16'] = dict(
     title='Criteria run in position order; invalid solver option sets are refused',
@@ -181,14 +182,14 @@ PROPS['C10'] = dict(
 PROPS['C08'] = dict(
     title='Generated files are well-formed instances of the requested type and parameters',
     functions=[GS + 'create_quotas', SPA + 'create_project_lecturers', GS + 'create_ties_indicators', GS + 'create_pref_lists_original', GS + 'create_linear_distribution',
-               GS + 'create_string_pref', SPA + 'generate_instances', 'generator_ha_sm_hr:Generator_ha_sm_hr.generate_instances', SPA + 'create_instance', 'generator_ha_sm_hr:Generator_ha_sm_hr.create_instance'] + [(IOP + 'parse', {'argv_fixed': {'matchingproblem': mp}}) for mp in ('ha', 'sm', 'hr', 'spa')],
+               GS + 'create_string_pref', SPA + 'generate_instances', 'generator_ha_sm_hr:Generator_ha_sm_hr.generate_instances', SPA + 'create_instance', 'generator_ha_sm_hr:Generator_ha_sm_hr.create_instance'] + [(IOP + 'parse', {'argv_fixed': {'matchingproblem': mp}}) for mp in ('ha', 'sm', 'hr', 'spa')] + [GEN_INIT(mp) for mp in ('ha', 'sm', 'hr', 'spa')],
     lemmas=['C08/shares', 'C08/spread-monotone', 'C17/sum-positive', 'C17/scaled-sum', 'C13/writer-shape', 'LISTSET/empty-append', 'LISTSET/permute', 'LISTSET/iterate'], level='other',
     level_text='proved for all parameters: quotas / targets / projects per lecturer are the even spreading (share k = total // n + [k < total % n]: larger shares first, spread <= 1, sum = total, monotone in the total hence lower <= target <= upper pointwise); first-side lists have between pmin and pmax distinct agents in range and the RNG preconditions hold (positive weights summing to one, k <= n2); tie indicators are 0 / 1 and constant for probability 0 / 1; the tie writer brackets maximal runs; every accepted argument vector satisfies the bounds the generators rely on (parse postconditions, all four types).  generate_instances (both generators) is verified as wiring: every callee precondition holds (so it never raises before writing), and create_instance is called with first-side lists of distinct in-range agents, tie flags of the same shape, one in-range lecturer per project, quotas with 0 <= lower <= (target <=) upper pointwise (spreading lemmas) and second-side lists as in C12.  NOT proved deductively (bounded stand-in): the text assembly inside create_instance (both generators), file names 0..k-1 and "every length in [pmin,pmax] can occur" (T10)',
     harness=True, bound='n <= 6 agents per side, numinst <= 2, tie probabilities {0, 0.3/0.4, 1}, skew {0.5, 1, 3, 10}',
     budget={'quick': 20, 'thorough': 300},
     trusted=['T10 numpy / random: randint in [a,b), choice(replace=False) returns distinct elements of its argument, choice never returns a value of probability 0, shuffle permutes, np.sum / array division as documented',
              'T8 file I/O', 'T9 argparse', 'int(a / b) == a // b for a + b < 2**53 (DESIGN 3.1)'],
-    assumptions=['create_instance is verified over the lexical view of its text (lines of blank-separated tokens; a colon is deleted by the reader; T7): header with the counts, one numbered line per agent carrying exactly the numbers / bracketed list handed over, second-side lists only when given, blank line, parameter block; generate_instances writes exactly numberinstances files, write number u to <outputdirectory>/<u>.txt opened for writing, each holding the text create_instance returned for that iteration with the requested counts in its header (ghost log of file writes, T8); the content of the parameter block (create_instance_info) is covered by the bounded stand-in only', 'generate_instances is verified for argument records satisfying the postconditions of Instance_options_parser.parse (C15)'])
+    assumptions=['create_instance is verified over the lexical view of its text (lines of blank-separated tokens; a colon is deleted by the reader; T7): header with the counts, one numbered line per agent carrying exactly the numbers / bracketed list handed over, second-side lists only when given, blank line, parameter block; generate_instances writes exactly numberinstances files, write number u to <outputdirectory>/<u>.txt opened for writing, each holding the text create_instance returned for that iteration with the requested counts in its header (ghost log of file writes, T8); the content of the parameter block (create_instance_info) is covered by the bounded stand-in only', 'generate_instances is verified for argument records satisfying its stated precondition; Generator.__init__ (parser inlined) proves that precondition at the call site for every accepted argument vector with a positive skew'])
 GETTER_HELPERS = ['_get_max_rank', '_get_cost', '_get_cost_sq', '_get_degree', '_get_profile', '_get_lec_abs_diffs', '_get_max_lec_abs_diff', '_get_sum_lec_abs_diff',
                   '_get_matching_string', '_get_matching_size', '_get_pair_assignments', '_get_pair_assignments_with_none', 'get_results', 'get_debug', '_pairs_string',
                   'check_stability', 'get_num_assignments_projects', 'get_num_assignments_lecturers', 'get_worst_rank_projects', 'get_worst_rank_lecturers',
